@@ -188,3 +188,63 @@ def run_c09(tier, out):
                  "round by round against Poseidon.tla with the circomlib tables; hash-to-field for block-boundary lengths recomputed by "
                  "Keccak.tla and reduced modulo p by TLC; typed, byte-level, FFI entry points and 4 threads compared; every case is distinct",
             checker_cmd="tlc Trace_Hash.tla (Poseidon + Keccak + BigNat), one hash per TLC process in parallel")
+
+
+def run_c05(tier, out):
+    """the graph evaluator against the reference circom generator rln.wasm (run under node's WebAssembly)"""
+    import shutil
+    from common import REPO, bignat_accelerator
+    wd = workdir(f"C05-{tier}")
+    quick = tier == "quick"
+    node = shutil.which("node")
+    if not node:
+        raise ToolError("no WebAssembly runtime (node) in this sandbox: the reference generator cannot be executed")
+    binary, _ = build_harness("default")
+    cases = os.path.join(wd, "cases.ndjson")
+    code = os.path.join(wd, "code.ndjson")
+    ref = os.path.join(wd, "ref.ndjson")
+    n = 48 if quick else 600
+    rc, o = run([binary, "witness", "--seed", str(seed()), "--count", str(n), "--cases", cases, "--out", code], timeout=3600)
+    if rc != 0:
+        raise ToolError("harness failed:\n" + o[-2000:])
+    wasm = os.path.join(REPO, "rln", "resources", "tree_height_20", "rln.wasm")
+    rc, o = run([node, os.path.join(os.path.dirname(SPEC), "tools", "wasm_witness.js"), wasm, cases, ref], timeout=3600)
+    if rc != 0:
+        raise ToolError("reference generator run failed:\n" + o[-2000:])
+    crow, rrow = read_ndjson(code), read_ndjson(ref)
+    if len(crow) != len(rrow):
+        raise ToolError("reference run incomplete")
+    rows = [{"t": "witness", "id": c["id"], "code": c["code"], "ref": r} for c, r in zip(crow, rrow)]
+    accepted = sum(1 for r in rrow if r["res"] == "ok")
+    if accepted < len(rows) // 2:
+        raise ToolError(f"scenario error: the reference generator accepted only {accepted} of {len(rows)} assignments")
+    devs = judge_parallel("Trace_Witness", wd, rows, 4 if quick else 12, "C05")
+    for line, why in devs:
+        ev = rows[line - 1]
+        case = read_ndjson(cases)[ev["id"]]
+        out.violation(f"witness of assignment {ev['id']} differs from the reference generator's: {why}", {"kind": "witness", "case": case})
+    # the REAL graph judged node by node against the reference interpretation (Graph.tla), incl. storage round trip and orders
+    bignat_accelerator(wd, out, seed())
+    bp = os.path.join(wd, "bundled.ndjson")
+    rc, o = run([binary, "bundled", "--seed", str(seed()), "--out", bp], timeout=3600)
+    if rc != 0:
+        raise ToolError("harness failed:\n" + o[-2000:])
+    brow = read_ndjson(bp)
+    bdev = judge_parallel("Trace_Graph", wd, brow, 1, "C05g")
+    for line, why in bdev:
+        out.violation(f"the bundled graph is not evaluated / stored as its reference interpretation demands: {why}", {"kind": "bundled"})
+    # negative control: one element of one computed vector altered
+    neg = [json.loads(json.dumps(next(r for r in rows if r["ref"]["res"] == "ok")))]
+    neg[0]["code"][0][4000] = "12345"
+    if judge_parallel("Trace_Witness", wd, neg, 1, "C05neg") == []:
+        raise ToolError("negative control: the witness judge accepted a corrupted trace")
+    out.sample({"id": rows[0]["id"], "inputs": read_ndjson(cases)[0]["inputs"], "reference": rows[0]["ref"]["res"],
+                "witness_len": len(rows[0]["code"][0]), "first_signals": rows[0]["code"][0][:6]})
+    out.add(evaluations=len(rows) + 1, distinct_nontrivial=accepted, programs=len(rows), disagreements_checked=len(devs),
+            accepted_by_reference=accepted, rejected_by_reference=len(rows) - accepted, witness_length=len(rows[0]["code"][0]),
+            order_variants=sum(len(r["code"]) for r in rows), bundled_graph_nodes_judged=len(brow[0]["nodes"]),
+            traces_validated_against_impl=1 if not devs and not bdev else 0, negative_control_rejected=True,
+            rule="one evaluation = one 45-value input assignment (limb-boundary values 2^64k-1 / 2^64k / 2^64k+1, near-modulus and random field "
+                 "values, all limits and boundary message ids, direction-bit patterns) evaluated by the graph evaluator (1 or 3 insertion orders) "
+                 "and by rln.wasm under node's WebAssembly; non-trivial = accepted by the reference; plus the bundled graph judged node by node",
+            checker_cmd="tlc Trace_Witness.tla on (evaluator, rln.wasm) witness pairs; tlc Trace_Graph.tla on the bundled graph")
